@@ -25,7 +25,7 @@ ObsMatches(o) ==
                           /\ (o[i].sealed = 0 => ~fracs[i].sealed)
 
 Reset == /\ fracs' = <<>> /\ active' = 0 /\ limbo' = {} /\ dead' = {} /\ acked' = {} /\ retired' = {}
-         /\ pending' = 0 /\ inflight' = 0 /\ mode' = "loading" /\ exiting' = FALSE /\ crashes' = 0
+         /\ pending' = {} /\ inflight' = {} /\ mode' = "loading" /\ exiting' = FALSE /\ crashes' = 0
 
 TInit == Init /\ l = 1
 TNext == \/ (Ev("RESET") /\ Reset)
@@ -39,7 +39,7 @@ TNext == \/ (Ev("RESET") /\ Reset)
          \/ (Ev("stopbegin") /\ StopBegin)
          \/ (Ev("stopend") /\ StopEnd)
          \/ (Ev("crash") /\ Crash)
-         \/ (Ev("load") /\ \E k \in BOOLEAN, B \in SUBSET limbo : \E D \in SUBSET SealCands(B), U \in SUBSET ReopenCands(B) : Load(k, B, D, U))
+         \/ (Ev("load") /\ \E B \in SUBSET limbo : \E pl \in Places(B), D \in SUBSET SealCands(B), U \in SUBSET ReopenCands(B) : Load(pl, B, D, U))
          \/ (Ev("loadend") /\ LoadEnd)
          \/ (Ev("obs") /\ mode = "up" /\ ObsMatches(Trace[l].o) /\ UNCHANGED vars)
 TSpec == TInit /\ [][TNext]_tvars
